@@ -37,7 +37,12 @@ def quietTxsB : List Tx → App → List (Signer × Nat) → Bool
   | tx :: rest, s, incs => quietTxB s incs tx && quietTxsB rest (runTx genEnv s incs tx).2.1 (runTx genEnv s incs tx).2.2
 
 def quietBlockB (s : App) (c : CSet) (b : Block) : Bool :=
-  b.votes.all (fun vt => !vt.absent && s.vals.any (fun v => v.key == vt.key)) && b.evid.isEmpty &&
+  (match slashingBegin b.votes { s with height := s.height + 1, time := s.time + b.dt } with
+   | .ok s1 =>
+     -- x/slashing's BeginBlocker punished nobody: nothing but signing infos and bitmaps changed
+     decide (s1 = { s with height := s.height + 1, time := s.time + b.dt, infos := s1.infos, bitmap := s1.bitmap }) &&
+     s.vals.all (fun v => (alookup v.key s1.infos).isSome)
+   | .error _ => false) && b.evid.isEmpty &&
   (match beginState genEnv s b with
    | .ok s2 => quietTxsB b.txs s2 [] && fitsB (runTxs genEnv b.txs s2 [] []).2 c
    | .error _ => true)
